@@ -1419,3 +1419,80 @@ def gen_C17(rng, tier):
 
 GENERATORS.update({"C06": gen_C06, "C07": gen_C07, "C08": gen_C08, "C09": gen_C09, "C13": gen_C13, "C15": gen_C15,
                    "C16": gen_C16, "C17": gen_C17, "C20": gen_C20})
+
+
+# =========================================================================== C19: one workload, many configurations
+def subsample(rng, L, n):
+    return L if len(L) <= n else rng.sample(L, n)
+
+
+def gen_C19(rng, tier):
+    """a seeded workload over the whole public API: well-dimensioned programs of every group, plus the ill-dimensioned quantity
+    programs of C01 (which must not panic / be rejected in the unchecked builds)"""
+    global HARNESS_BIN
+    n = n_of(tier, 600, 4000)
+    L = []
+    L += subsample(rng, gen_C01(rng, "quick"), 4 * n)
+    L += subsample(rng, gen_C18(rng, "quick"), 2 * n)
+    L += subsample(rng, gen_C14(rng, "quick"), 2 * n)
+    L += subsample(rng, gen_C03(rng, "quick"), n)
+    L += subsample(rng, gen_C02(rng, "quick"), n)
+    for g in (gen_C04, gen_C05, gen_C10, gen_C11, gen_C12, gen_C15, gen_C08, gen_C09, gen_C13, gen_C20, gen_C16):
+        L += subsample(rng, g(rng, "quick"), n // 2)
+    L += subsample(rng, gen_C06(rng, "quick"), n // 3)
+    rel = RELATIONS  # (relations of the individual generators are not used here)
+    return L
+
+
+POWF_LINE = ("ss ewma", "st exp")
+
+
+def line_mask_C19(c):
+    # the property exempts the power function (EWMA, exponent stream) when libm/micromath replaces std: values not compared there
+    if c.startswith(POWF_LINE):
+        return {"cat", "time", "unit"}
+    return {"cat", "time", "unit", "float"}
+
+
+def strip_units(tok):
+    """drop unit exponents (`mm,s`) from a token so that checked and unchecked traces can be compared as numbers"""
+    import re as _re
+    return _re.sub(r"(:|^)-?\d+,-?\d+", r"\1u", tok)
+
+
+def cross_C19(lines, outs):
+    """well-dimensioned lines (no panic / rejection in any checked build) must give equal f32 VALUES and identical timestamps in
+    every configuration; unchecked builds must never panic with a dimension panic or reject a unit"""
+    bad = []
+    names = list(outs.keys())
+    import re as _re
+    chk_cfgs = [n for n in names if ("chk" in _re.split("[_,]", n) or n == "default")]
+    # unit-introspection API: documented to answer differently with checking off (`eq_assume_true` is constantly true,
+    # `assert_eq_assume_not_ok` always panics, `==` ignores units): not "numeric results of a dimensionally correct program"
+    INTROSPECT = ("q uanok", "q ueqt", "q ueqf", "q uceq", "q ucaeq", "q uaok", "q eq ")
+    for k, c in enumerate(lines):
+        row = {n: outs[n][k] for n in names if k < len(outs[n])}
+        if any(o in ("NOIMPL", "BADLINE") for o in row.values()):
+            continue
+        if c.startswith(INTROSPECT):
+            continue
+        for n in names:
+            if n not in chk_cfgs and "PANIC:dim" in row[n]:
+                bad.append((c, "dimension panic in the unchecked configuration %s" % n))
+        ref_name = chk_cfgs[0] if chk_cfgs else names[0]
+        ref = row[ref_name]
+        if "PANIC:dim" in ref or " err" in (" " + ref) or ref.startswith("err"):
+            continue            # ill-dimensioned program: only the no-panic clause applies
+        if c.startswith(POWF_LINE):
+            continue
+        for n in names:
+            if n == ref_name:
+                continue
+            v, detail = compare_lines(strip_units(row[n]), strip_units(ref), {"cat", "time", "float"}, None, True)
+            if v == "hard":
+                # rejections that only exist in checked builds (`err` from a unit test) are not numeric results
+                bad.append((c, "configuration %s differs from %s: %s" % (n, ref_name, detail)))
+    return bad[:200]
+
+
+GENERATORS.update({"C19": gen_C19})
